@@ -5,7 +5,7 @@
 From Coq Require Import List String Bool Permutation.
 Import ListNotations.
 From DI Require Import Syntax Tokens Bounds Param Subs Superset Substitute Spec RustSem Group Search Gen GenMain Validate IMap Hygiene Dispatch Examples ExamplesGroup ExamplesF16.
-From DI.proofs Require Import Basics SupersetSound SupersetExact SupersetComplete SupersetWf SubstituteProofs SubstituteSpec BoundsProofs DispatchProofs GroupProofs SearchProofs SearchFlat FlatSemantics FlatConcrete GenProofs GenMainProofs ParamProofs ParamAlpha RustSemProofs ValidateProofs IMapProofs HygieneProofs.
+From DI.proofs Require Import Basics SupersetSound SupersetExact SupersetComplete SupersetWf SubstituteProofs SubstituteSpec BoundsProofs DispatchProofs GroupProofs SearchProofs SearchFlat SearchNested FlatSemantics FlatConcrete GenProofs GenMainProofs ParamProofs ParamAlpha RustSemProofs ValidateProofs IMapProofs HygieneProofs.
 
 (* ===================================================================================== *)
 (* C09 -- header generalisation is exact first-order matching                             *)
@@ -651,6 +651,48 @@ Example C03_flat_blocks_nonvacuous :
   option_map (map (fun e => snd (snd e))) (search 9 [blk 0; blk 1]) = Some [[0; 1]].
 Proof. vm_compute. repeat split; try reflexivity. discriminate. Qed.
 Print Assumptions C03_flat_blocks_nonvacuous.
+
+(* acceptance of a NESTED member by the search function: n blocks under a general header H0
+   plus one block under a more specific header H1 (H0 generalises H1, not conversely) whose
+   bound re-expresses to the family's key (C10) and whose payload is unifiable with none of the
+   others: ONE family under H0 with n + 1 members and rows [p_0] .. [p_(n-1)], [p'] -- the
+   search explores both groupings and prefers the joint one *)
+Theorem C03_nested_member_accepted : forall H0 H1 B B1 a n blk T p blk1 T1 T1' p1 sigma,
+  0 < n ->
+  NoDup (map blk (seq 0 n) ++ [blk1]) ->
+  (forall i, i < n -> gid_of (blk i) = H0) -> gid_of blk1 = H1 ->
+  (forall i, i < n -> find_bounds (blk i) = {| ib_bounds := [((B, T i), [(a, p i)])]; ib_unsized := [] |}) ->
+  find_bounds blk1 = {| ib_bounds := [((B1, T1), [(a, p1)])]; ib_unsized := [] |} ->
+  (forall i j, i < n -> j < n -> tb_eqb (T i) (T j) = true) ->
+  (forall i j, i < n -> j < n -> i <> j -> sup (p i) (p j) = None) ->
+  term_eqb H0 H1 = false -> sup H0 H1 = Some sigma -> sup H1 H0 = None -> cwf [] H0 = true ->
+  stable_key sigma B1 T1 = true -> subst_key sigma B1 T1 = [(B, T1')] ->
+  tb_eqb (T (n - 1)) T1' = true -> tb_eqb T1 T1 = true ->
+  (forall i, i < n -> sup (p i) p1 = None /\ sup p1 (p i) = None) ->
+  forall fuel, n + 2 < fuel ->
+  exists g, search fuel (map blk (seq 0 n) ++ [blk1]) = Some [(H0, (g, seq 0 n ++ [n]))] /\
+            abg_payloads g = map (fun x => [Some x]) (map p (seq 0 n) ++ [p1]).
+Proof. exact nested_member_search. Qed.
+Print Assumptions C03_nested_member_accepted.
+
+(* a concrete instance:  K for T (T: D<G = GA>), K for T (T: D<G = GB>), K for Vec<T> (Vec<T>: D<G = GC>) *)
+Example C03_nested_nonvacuous :
+  let tr := osome (path1 "K" anone) in
+  let Tg := fun g => path1 "D" (aangle [gassoc "G" (tC0 g)]) in
+  let vec := tC "Vec" [gty (tP "0")] in
+  let b := fun g => flat_block [pid "0"] tr (tP "0") (tP "0") (Tg g) (Node (K "Items" "") []) in
+  let b1 := flat_block [pid "0"] tr vec vec (Tg "GC"%string) (Node (K "Items" "") []) in
+  let H0 := Node (K "GroupId" "") [tr; tP "0"] in
+  let H1 := Node (K "GroupId" "") [tr; vec] in
+  term_eqb H0 H1 = false /\ sup H1 H0 = None /\ cwf [] H0 = true /\
+  match sup H0 H1 with
+  | Some sigma => stable_key sigma vec (Tg "GC"%string) = true /\ subst_key sigma vec (Tg "GC"%string) = [(tP "0", Tg "GC"%string)]
+  | None => False
+  end /\
+  tb_eqb (Tg "GB"%string) (Tg "GC"%string) = true /\ sup (tC0 "GA"%string) (tC0 "GC"%string) = None /\ sup (tC0 "GC"%string) (tC0 "GB"%string) = None /\
+  option_map (map (fun e => snd (snd e))) (search 9 [b "GA"%string; b "GB"%string; b1]) = Some [[0; 1; 2]].
+Proof. vm_compute. repeat split; reflexivity. Qed.
+Print Assumptions C03_nested_nonvacuous.
 
 (* ===================================================================================== *)
 (* C06 -- independence from parameter names (canonicalisation commutes with any consistent   *)
